@@ -44,6 +44,7 @@ Section Invariants.
 Variable len : nat.
 Variable known : bool.
 Variable stop : nat -> bool.
+Variable panics : nat -> bool.
 Variable dospawn : nat -> option nat -> bool.
 Variable nextc : nat -> option nat -> option nat.
 Variable maxt : nat.                     (* max_num_threads *)
@@ -52,18 +53,24 @@ Hypothesis dospawn_bound : forall n h, dospawn n h = true -> n + 2 <= maxt.
 Hypothesis nextc_pos : forall n h c, nextc n h = Some c -> 0 < c.
 Hypothesis maxt_pos : 1 <= maxt.
 
-Notation wstep := (wstep len stop).
-Notation step := (step len known stop dospawn nextc).
-Notation run := (run len known stop dospawn nextc).
+Notation wstep := (wstep len stop panics).
+Notation step := (step len known stop panics dospawn nextc).
+Notation run := (run len known stop panics dospawn nextc).
 Notation sstep := (sstep len known dospawn nextc).
 
-(** the worker has not met a stopping position *)
+(** processing position [i] ends the worker's loop: early exit or panic *)
+Definition halt (i : nat) : bool := panics i || stop i.
+Definition halted_phase (p : phase) : bool :=
+  match p with Found | Done | Dead => true | _ => false end.
+
+(** the worker has not met a halting position *)
 Definition nostop (w : worker) : Prop :=
-  (forall i, In i (seen w) -> stop i = false) /\ aband w = [] /\ ph w <> Found.
-(** the worker stopped at position [m], the last it processed *)
+  (forall i, In i (seen w) -> halt i = false) /\ aband w = [] /\ ph w <> Found /\ ph w <> Dead.
+(** the worker halted at position [m], the last it processed *)
 Definition stopped (w : worker) (m : nat) : Prop :=
-  exists s0, seen w = s0 ++ [m] /\ stop m = true /\ (forall i, In i s0 -> stop i = false) /\
-             (forall i, In i (aband w) -> m < i) /\ (ph w = Found \/ ph w = Done).
+  exists s0, seen w = s0 ++ [m] /\ halt m = true /\ (forall i, In i s0 -> halt i = false) /\
+             (forall i, In i (aband w) -> m < i) /\ halted_phase (ph w) = true /\
+             (ph w = Dead -> panics m = true) /\ (ph w = Found -> panics m = false).
 
 Record WInv (w : worker) : Prop := {
   W_hist : owned w = chunks_of (pulls w);
@@ -92,7 +99,7 @@ Ltac perm := repeat rewrite app_nil_r; repeat rewrite <- app_assoc; simpl;
 
 Ltac stopped_absurd :=
   let m := fresh "m" in let s0 := fresh "s0" in let Hp := fresh "Hp" in
-  intros m (s0 & _ & _ & _ & _ & [Hp|Hp]); discriminate.
+  intros m (s0 & _ & _ & _ & _ & Hp & _); discriminate.
 Ltac fin :=
   repeat split; auto; try lia; try perm; try discriminate;
   try (intros; subst; auto; try (right; lia); fail); try stopped_absurd.
@@ -114,10 +121,10 @@ Lemma wstep_spec c f sk w c' f' sk' w' :
 Proof.
   unfold Machine.wstep. intros H Hc Hf [Wh Wi Wc Wp Ws] Hlt.
   destruct w as [cs p sn ab pl]; unfold owned, pending in *; cbn [csize ph seen aband pulls] in *.
-  destruct p as [| b k | |].
+  destruct p as [| b k | | |].
   - (* Ready: the pull *)
-    assert (Hns : (forall i, In i sn -> stop i = false) /\ ab = []).
-    { destruct Ws as [(H1 & H2 & _)|(m & s0 & _ & _ & _ & _ & [Hp|Hp])]; auto; discriminate. }
+    assert (Hns : (forall i, In i sn -> halt i = false) /\ ab = []).
+    { destruct Ws as [(H1 & H2 & _)|(m & s0 & _ & _ & _ & _ & Hp & _)]; auto; discriminate. }
     destruct Hns as [Hns ->]. rewrite ?app_nil_r in *. cbn [app] in *.
     destruct (c <? len) eqn:E.
     + apply Nat.ltb_lt in E. injection H as <- <- <- <-.
@@ -129,50 +136,64 @@ Proof.
         intros x y Hx Hy. apply in_seq in Hy. specialize (Hlt x Hx). lia.
       * apply Forall_app; split; [exact Wp|]. constructor; [|constructor]. simpl.
         split; [exact E|reflexivity].
-      * left. repeat split; auto. discriminate.
+      * left. repeat split; auto; discriminate.
     + apply Nat.ltb_ge in E. injection H as <- <- <- <-.
       rewrite ?Nat.sub_diag. cbn [seq]. rewrite ?app_nil_r.
       split; [winv|fin].
-      left. repeat split; auto. discriminate.
+      left. repeat split; auto; discriminate.
   - (* Holding *)
-    assert (Hns : (forall i, In i sn -> stop i = false) /\ ab = []).
-    { destruct Ws as [(H1 & H2 & _)|(m & s0 & _ & _ & _ & _ & [Hp|Hp])]; auto; discriminate. }
+    assert (Hns : (forall i, In i sn -> halt i = false) /\ ab = []).
+    { destruct Ws as [(H1 & H2 & _)|(m & s0 & _ & _ & _ & _ & Hp & _)]; auto; discriminate. }
     destruct Hns as [Hns ->]. rewrite !app_nil_r in *.
     destruct k as [|k].
     + injection H as <- <- <- <-. rewrite ?Nat.sub_diag. cbn [seq]. rewrite ?app_nil_r.
       split; [winv|fin].
-      left. repeat split; auto. discriminate.
-    + destruct (stop b) eqn:Es.
+      left. repeat split; auto; discriminate.
+    + destruct (panics b) eqn:Epn.
+      { (* the closure panics: the thread unwinds, dropping the rest of its chunk *)
+        injection H as <- <- <- <-. rewrite ?Nat.sub_diag. cbn [seq]. rewrite ?app_nil_r.
+        split; [winv|fin].
+        -- rewrite <- Wh. rewrite <- app_assoc. reflexivity.
+        -- rewrite <- app_assoc. exact Wi.
+        -- right. exists b, sn. unfold halt. rewrite Epn. repeat split; auto; try discriminate.
+           intros i Hi. apply in_seq in Hi. lia.
+        -- rewrite <- app_assoc. reflexivity. }
+      destruct (stop b) eqn:Es.
       * injection H as <- <- <- <-. rewrite ?Nat.sub_diag. cbn [seq]. rewrite ?app_nil_r.
         split; [winv|fin].
         -- rewrite <- Wh. rewrite <- app_assoc. reflexivity.
         -- rewrite <- app_assoc. exact Wi.
-        -- right. exists b, sn. repeat split; auto.
+        -- right. exists b, sn. unfold halt. rewrite Epn, Es. repeat split; auto; try discriminate.
            intros i Hi. apply in_seq in Hi. lia.
         -- rewrite <- app_assoc. reflexivity.
-      * assert (Hns' : forall i, In i (sn ++ [b]) -> stop i = false).
-        { intros i Hi. apply in_app_or in Hi. destruct Hi as [Hi|[<-|[]]]; auto. }
+      * assert (Hns' : forall i, In i (sn ++ [b]) -> halt i = false).
+        { intros i Hi. apply in_app_or in Hi. destruct Hi as [Hi|[<-|[]]]; auto.
+          unfold halt. now rewrite Epn, Es. }
         destruct k as [|k]; injection H as <- <- <- <-; rewrite ?Nat.sub_diag;
           cbn [seq]; rewrite ?app_nil_r.
         -- split; [winv|fin].
-           left. repeat split; auto. discriminate.
+           left. repeat split; auto; discriminate.
         -- split; [winv|fin].
            ++ rewrite <- Wh. rewrite <- app_assoc. reflexivity.
            ++ rewrite <- app_assoc. exact Wi.
-           ++ left. repeat split; auto. discriminate.
+           ++ left. repeat split; auto; discriminate.
            ++ rewrite <- app_assoc. reflexivity.
   - (* Found: skip_to_end *)
     injection H as <- <- <- <-. rewrite ?Nat.sub_diag. cbn [seq]. rewrite ?app_nil_r.
     assert (Hst : exists m, stopped (mkW cs Found sn ab pl) m).
-    { destruct Ws as [(_ & _ & Hp)|Hm]; auto. exfalso; apply Hp; reflexivity. }
-    destruct Hst as (m & s0 & Hs1 & Hs2 & Hs3 & Hs4 & _). cbn [seen aband ph] in *.
+    { destruct Ws as [(_ & _ & Hp & _)|Hm]; auto. exfalso; apply Hp; reflexivity. }
+    destruct Hst as (m & s0 & Hs1 & Hs2 & Hs3 & Hs4 & _ & _ & Hs7). cbn [seen aband ph] in *.
     assert (Hst' : stopped (mkW cs Done sn ab pl) m).
-    { exists s0. cbn [seen aband ph]. repeat split; auto. }
+    { exists s0. cbn [seen aband ph]. repeat split; auto; discriminate. }
     split; [winv|fin].
     + right. exists m. exact Hst'.
     + intros _. right. exists m. exact Hst'.
-    + intros m' (s1 & E1 & E2 & E3 & E4 & _). exists s1. cbn [seen aband ph] in *. repeat split; auto.
+    + intros m' (s1 & E1 & E2 & E3 & E4 & _). exists s1. cbn [seen aband ph] in *.
+      repeat split; auto; discriminate.
   - (* Done *)
+    injection H as <- <- <- <-. rewrite ?Nat.sub_diag. cbn [seq]. rewrite ?app_nil_r.
+    split; [constructor; auto|fin].
+  - (* Dead *)
     injection H as <- <- <- <-. rewrite ?Nat.sub_diag. cbn [seq]. rewrite ?app_nil_r.
     split; [constructor; auto|fin].
 Qed.
@@ -181,7 +202,7 @@ Lemma fresh_WInv c : 0 < c -> WInv (fresh c).
 Proof.
   intros Hc. constructor; unfold owned, pending; cbn; auto.
   - constructor.
-  - left. repeat split; auto. intros i []. discriminate.
+  - left. repeat split; auto; try discriminate. intros i [].
 Qed.
 
 Lemma owned_lt_front s : GInv s -> forall w, In w (ws s) -> forall x, In x (owned w) -> x < front s.
@@ -272,31 +293,43 @@ Qed.
 
 
 (** ** what a completed run looks like (shared by all kernels and by both machines) *)
-Definition nostop_seen (w : worker) : Prop := forall i, In i (seen w) -> stop i = false.
-Definition stopped_seen (w : worker) (m : nat) : Prop :=
-  exists s0, seen w = s0 ++ [m] /\ stop m = true /\ (forall i, In i s0 -> stop i = false).
+Definition nostop_seen (hf : nat -> bool) (w : worker) : Prop := forall i, In i (seen w) -> hf i = false.
+Definition stopped_seen (hf : nat -> bool) (w : worker) (m : nat) : Prop :=
+  exists s0, seen w = s0 ++ [m] /\ hf m = true /\ (forall i, In i s0 -> hf i = false).
 
-Record Outcome (wl : list worker) : Prop := {
+(** [hf i]: processing position [i] made its worker leave the loop *)
+Record Outcome (hf : nat -> bool) (wl : list worker) : Prop := {
   O_nonempty : wl <> [];
   O_incr : Forall (fun w => incr (seen w)) wl;
-  O_cases : Forall (fun w => nostop_seen w \/ exists m, stopped_seen w m) wl;
+  O_cases : Forall (fun w => nostop_seen hf w \/ exists m, stopped_seen hf w m) wl;
   O_bound : forall w i, In w wl -> In i (seen w) -> i < len;
   (* no early exit: every position is processed by exactly one worker, chunk by chunk *)
-  O_full : (forall i, stop i = false) ->
+  O_full : (forall i, hf i = false) ->
            Permutation (flat_map seen wl) (seq 0 len) /\
            Forall (fun w => seen w = chunks_of (pulls w)) wl;
   (* early exit: below every stopping position some worker stopped *)
-  O_find : forall j, j < len -> stop j = true ->
-           exists w m, In w wl /\ stopped_seen w m /\ m <= j;
+  O_find : forall j, j < len -> hf j = true ->
+           exists w m, In w wl /\ stopped_seen hf w m /\ m <= j;
   O_disjoint : NoDup (flat_map seen wl)
 }.
 
 Lemma incr_app_l l1 l2 : incr (l1 ++ l2) -> incr l1.
 Proof. intros H. apply incr_app_inv in H. tauto. Qed.
 
-Theorem final_outcome s : GInv s -> all_done s -> Outcome (ws s).
+(** without a panic nobody is [Dead] *)
+Lemma no_panic_no_dead s : GInv s -> (forall i, panics i = false) ->
+  forall w, In w (ws s) -> ph w <> Dead.
 Proof.
-  intros G [Hsp Hdone].
+  intros G Hnp w Hw Hd. pose proof (G_w G) as Gw. rewrite Forall_forall in Gw.
+  destruct (W_stop (Gw w Hw)) as [(_ & _ & _ & H)|(m & s0 & _ & _ & _ & _ & _ & H & _)]; [congruence|].
+  rewrite Hnp in H. specialize (H Hd). discriminate.
+Qed.
+
+Theorem final_outcome s : GInv s -> all_done s -> (forall i, panics i = false) -> Outcome halt (ws s).
+Proof.
+  intros G [Hsp Hfin] Hnp.
+  assert (Hdone : forall w, In w (ws s) -> ph w = Done).
+  { intros w Hw. destruct (Hfin w Hw) as [H|H]; auto. exfalso. eapply no_panic_no_dead; eauto. }
   pose proof (owned_lt_front G) as Hlt.
   destruct G as [Gp Gf Gc Gn Gd Gw Gk Gu Gs]. rewrite Hsp in Gs.
   assert (Hne : ws s <> []) by (destruct (ws s); [simpl in Gs; lia|discriminate]).
